@@ -67,9 +67,6 @@ T = [
     ("C15", "circuitgraph/io.py", "circuit_to_bench", "s"),
     ("C17", "circuitgraph/tx.py", "supergates", "sa"),
     ("C18", "circuitgraph/tx.py", "acyclic_unroll", "sa"),
-    ("C19", "circuitgraph/tx.py", "strip_io", "a"),
-    ("C19", "circuitgraph/tx.py", "relabel", "a"),
-    ("C19", "circuitgraph/tx.py", "subcircuit", "a"),
     ("C20", "circuitgraph/utils.py", "lint", "s"),
 ]
 
